@@ -192,8 +192,9 @@ def run_c20(case):
     finally:
         shutil.rmtree(d, ignore_errors=True); shutil.rmtree(d_ref, ignore_errors=True)
 
-case = {'compress': True, 'kinds': ['empty', '2.0'], 'mode': 'server'}
-bad = run_c19(case)
+case = {'compress': True, 'kinds': ['1.0', '1.0', '1.0', '1.0'], 'crash_at': 2, 'torn': None, 'neighbours': 0, 'resession': True}
+bad = run_c20(case)
+print("case:", case)
 print("FAIL: " + bad if bad else "PASS")
 sys.stdout.flush()
 os._exit(1 if bad else 0)
